@@ -200,6 +200,9 @@ enum Inject {
     /// the same environment, and on top of it a fault at the k-th output operation (should the
     /// creator find a way to write at all)
     ReadOnlyDirIo { k: u64, decision: IoDecision },
+    /// the file size limit (as `Fsize`) only takes effect when the k-th output operation is
+    /// reached: everything written before fits, what the creator does from there on does not
+    FsizeFrom { k: u64, limit: u64, ignore_signal: bool },
 }
 
 impl Inject {
@@ -221,6 +224,7 @@ impl Inject {
             Inject::Benign { seed } => format!("benign:{seed}"),
             Inject::InputErr { call } => format!("inputerr:{call}"),
             Inject::Fsize { limit, ignore_signal } => format!("fsize:{limit}:{}", if *ignore_signal { "efbig" } else { "kill" }),
+            Inject::FsizeFrom { k, limit, ignore_signal } => format!("fsizefrom:{k}:{limit}:{}", if *ignore_signal { "efbig" } else { "kill" }),
             Inject::ReadOnlyDir => "rodir".into(),
             Inject::ReadOnlyDirIo { k, decision } => {
                 let inner = Inject::Io { k: *k, decision: *decision }.encode();
@@ -239,6 +243,7 @@ impl Inject {
         Some(match p[0] {
             "none" => Inject::None,
             "rodir" => Inject::ReadOnlyDir,
+            "fsizefrom" => Inject::FsizeFrom { k: p[1].parse().ok()?, limit: p[2].parse().ok()?, ignore_signal: p[3] == "efbig" },
             "benign" => Inject::Benign { seed: p[1].parse().ok()? },
             "inputerr" => Inject::InputErr { call: p[1].parse().ok()? },
             "fsize" => Inject::Fsize { limit: p[1].parse().ok()?, ignore_signal: p[2] == "efbig" },
@@ -265,6 +270,8 @@ impl Inject {
             Inject::InputErr { .. } => "input-stream-error",
             Inject::Fsize { ignore_signal: false, .. } => "rlimit-fsize-kill",
             Inject::Fsize { ignore_signal: true, .. } => "rlimit-fsize-efbig",
+            Inject::FsizeFrom { ignore_signal: false, .. } => "rlimit-fsize-from-an-operation-on-kill",
+            Inject::FsizeFrom { ignore_signal: true, .. } => "rlimit-fsize-from-an-operation-on-efbig",
             Inject::ReadOnlyDir => "destination-directory-not-writable",
             Inject::ReadOnlyDirIo { .. } => "destination-directory-not-writable+io-fault",
             Inject::Io { decision, .. } => match decision {
@@ -349,6 +356,14 @@ pub fn child_main(args: &Args) -> ! {
         Inject::InputErr { call } => {
             hooks.set_plan(Some(IoPlan::Record));
             opts.sim_cfg.err_at_call = Some(*call);
+        }
+        Inject::FsizeFrom { k, limit, ignore_signal } => {
+            if *ignore_signal {
+                unsafe {
+                    libc::signal(libc::SIGXFSZ, libc::SIG_IGN);
+                }
+            }
+            hooks.set_plan(Some(IoPlan::FsizeFrom { k: *k, limit: *limit }));
         }
         Inject::ReadOnlyDir | Inject::ReadOnlyDirIo { .. } => {
             match &inject {
@@ -627,6 +642,17 @@ fn injections(s: &Scenario, r: &Reference, tier: Tier) -> Vec<Inject> {
             l += stride;
         }
     }
+    // the quota is reached exactly when a file is about to be published (or right after)
+    for (k, (kind, file, _)) in r.ops.iter().enumerate() {
+        if kind == "persist" || kind == "persisted" {
+            let size = r.files.iter().find(|(n, _)| n == file).map(|(_, b)| b.len() as u64).unwrap_or(64);
+            for limit in [0, size / 2] {
+                for ignore_signal in [false, true] {
+                    out.push(Inject::FsizeFrom { k: k as u64, limit, ignore_signal });
+                }
+            }
+        }
+    }
     if s.preexisting && !s.sim_source {
         out.push(Inject::ReadOnlyDir);
         for k in 0..r.ops.len() as u64 {
@@ -849,6 +875,8 @@ pub fn worker_main(args: &Args, w: usize, n: usize) -> ! {
                 // the limit bit if the creation did not end normally
                 Inject::Fsize { .. } => status != "ok",
                 // the directory refused the creator's temporary file if creation did not succeed
+                // armed when the operation was reached (it bites only a creator that still writes)
+                Inject::FsizeFrom { .. } => true,
                 Inject::ReadOnlyDir => status != "ok",
                 // fired = the armed operation was reached although the directory is not writable
                 Inject::ReadOnlyDirIo { .. } => fired.is_some(),
